@@ -20,6 +20,7 @@ RULE = (
     "{-5, 0, each level depth, each mid-level, between top level and surface, h, h+100}; non-trivial = N>=2 (a bracketing pair exists); "
     "lattice points distinct by construction"
 )
+RULE += " Beyond the lattice (chosen scenarios, not enumerated): one lookup call with 1100 particles in scrambled order against per-column calls."
 ASSUMPTIONS = ["parameters on the lattice only", "zeta = 0 (ladim ignores the free surface)"]
 
 THS = [0.01, 0.5, 1.0, 3.0, 5.0, 7.0, 10.0]
